@@ -221,9 +221,17 @@ func session1(seed int64, i int) (ivs []interval, frames []rig.Frame, logged boo
 			s := <-sessCh
 			rr := rand.New(rand.NewSource(seed*7919 + int64(i*100+g)))
 			at(time.Duration(150+rr.Intn(300)) * time.Millisecond)
+			// every second sender builds one message object and sends that object again and again (with a field changed
+			// in between): the earlier transmissions may still be queued or being written
+			own := fixgen.CreateMarketDataRequestReject(fmt.Sprintf("g%d-own", g))
 			for k := 0; k < 600; k++ {
 				t0 := time.Now()
-				_ = s.Send(fixgen.CreateMarketDataRequestReject(fmt.Sprintf("g%d-%d", g, k)))
+				if g%2 == 1 {
+					own.SetText(fmt.Sprintf("resent-%d", k))
+					_ = s.Send(own)
+				} else {
+					_ = s.Send(fixgen.CreateMarketDataRequestReject(fmt.Sprintf("g%d-%d", g, k)))
+				}
 				rec("send", t0, time.Now())
 				if k%6 == 5 {
 					if (variant == "relogon" || variant == "relogon-storm") && g < 3 {
